@@ -34,11 +34,13 @@ def gen_module(rng, nnames, valid_bias=0.9):
                 ds += rng.choice([['i%d', 'F%d'], ['F%d', 'F%d'], ['P%d', 'e%d'], ['e%d', 'i%d'], ['F%d', 'i%d'],
                                   ['F%d', 'D%d'], ['i%d', 'e%d'], ['P%d', 'i%d'], ['f%d', 'i%d']])
             ds = [d % n if '%' in d else d for d in ds]
+            if rng.random() < 0.25:   # a function too big to be inlined: calls go through its thunk
+                ds = [('B' + d[1:]) if d[0] == 'F' else d for d in ds]
         if rng.random() < 0.3:
             rng.shuffle(ds)
     else:
         for _ in range(rng.randint(1, 7)):
-            ds.append(rng.choice('ieffFFDP') + str(rng.randrange(nnames)))
+            ds.append(rng.choice('ieffFFBDP') + str(rng.randrange(nnames)))
     return 'L ' + ' '.join(ds)
 
 
@@ -64,7 +66,7 @@ def gen_history(rng, nops, gen_share):
     return ' ; '.join(ops)
 
 
-EXH_ALPHABET = ['L e0 F0', 'L i0', 'L e0 F0 i1', 'L e1 F1 i0', 'L e1 F1', 'L i0 i1', 'X 0 0', 'X 1 1', 'R 1',
+EXH_ALPHABET = ['L e0 F0', 'L i0', 'L e0 F0 i1', 'L e1 B1 i0', 'L e1 F1', 'L i0 i1', 'X 0 0', 'X 1 1', 'R 1',
                 'K 0 i', 'K 3 i']
 
 
